@@ -18,6 +18,7 @@ mod options;
 mod progress;
 
 use std::io::ErrorKind;
+use std::os::unix::fs::MetadataExt;
 use std::path::{Path, PathBuf};
 use std::{result, thread};
 use std::sync::Arc;
@@ -87,6 +88,20 @@ fn is_dir(path: &Path) -> Result<bool> {
     }
 }
 
+// Whether source and destination name the same existing directory,
+// however they are spelled (./d, an absolute path, a destination
+// that is a symbolic link to it). A source that is itself a link is
+// only followed when links are dereferenced.
+fn same_dir(source: &Path, dest: &Path, follow: bool) -> Result<bool> {
+    let sm = if follow { source.metadata() } else { source.symlink_metadata() };
+    let (ma, mb) = match (sm, dest.metadata()) {
+        (Ok(ma), Ok(mb)) => (ma, mb),
+        (Err(e), _) | (_, Err(e)) if e.kind() == ErrorKind::NotFound => return Ok(false),
+        (Err(e), _) | (_, Err(e)) => return Err(e.into()),
+    };
+    Ok(ma.is_dir() && mb.is_dir() && ma.dev() == mb.dev() && ma.ino() == mb.ino())
+}
+
 fn opts_check(opts: &Opts) -> Result<()> {
     #[cfg(any(target_os = "linux", target_os = "android"))]
     if opts.reflink == Reflink::Never {
@@ -133,7 +148,7 @@ fn main() -> Result<()> {
         if is_dir(source)? && !opts.recursive {
             return Err(XcpError::InvalidSource("Source is directory and --recursive not specified.").into());
         }
-        if source == &dest {
+        if source == &dest || same_dir(source, &dest, opts.dereference)? {
             return Err(XcpError::InvalidSource("Cannot copy a directory into itself").into());
         }
 
